@@ -1,9 +1,10 @@
-import Librfn.Gen.Rotenc
+import Librfn.Ref.Rotenc
 import Std.Tactic.BVDecide
 /-!
 # C19 — rotary encoder count equals net detent crossings for any signal sequence
 
-`Librfn.Gen.Rotenc` is regenerated from `/repo/librfn/rotenc.c` (+ `rotenc.h`) on every run (tie T).
+`Librfn.Ref.Rotenc` is the reference decoder (the frozen translation of the pinned `rotenc.c`); `Props/C19Tie.lean` proves on
+every run that the code regenerated from `/repo/librfn/rotenc.c` (+ `rotenc.h`) by tools/c2lean2.py equals it on all inputs (tie T).
 The decoder state is `(last_state : BitVec 8, count, internal_count : BitVec 16)`.
 
 Specification (independent of the code): the true position `P : Int` in quarter steps changes by
@@ -12,7 +13,7 @@ the four anticlockwise ones, 0 otherwise — repeated states and two-bit jumps);
 most recent decode whose state was the detent state 0.
 -/
 namespace Librfn.C19
-open Librfn.Gen.Rotenc
+open Librfn.Ref.Rotenc
 
 /-- signed quarter-step change for a (from, to) pair of 2-bit states -/
 def delta (f t : BitVec 2) : Int :=
